@@ -20,3 +20,19 @@ Proof.
   - destruct (c_current st); cbn [bind] in H; try discriminate. injection H as <- _. reflexivity.
 Qed.
 Print Assumptions C16_reset_current_no_load.
+
+(* ================= at most 2 * (index_levels + 2) block loads per operation, whatever the number of
+   entries: for every specified operation from every related state of a well-formed store of any
+   depth (wf_store, Rel: see C03.v).  cs_loads counts every block load (seek + Block::new). ============ *)
+From Grenad.model Require Import Spec.
+From Grenad.proofs Require Import ReaderRefine.
+
+Theorem C16_loads : forall ld root levels bstore, wf_store ld root levels bstore ->
+  forall p st o, Rel root bstore levels p st -> admissible p o ->
+  exists st' r, cstep ld root levels st o = Done (st', r) /\
+    cs_loads st' <= cs_loads st + 2 * (levels + 2).
+Proof.
+  intros ld root levels bstore W p st o HR Ha.
+  destruct (R_step ld root levels bstore W p st o HR Ha) as (st' & r & E & _ & _ & Hl). eauto.
+Qed.
+Print Assumptions C16_loads.
